@@ -215,12 +215,10 @@ pub fn topologies(thorough: bool) -> Vec<Topo> {
         }
         v.push(finish(if locked { "scissors-locked" } else { "scissors" }, f, vec![("W", vec![1, 2]), ("E", vec![7, 8])], vec![(0, 1, true), (1, 0, false)]));
     }
-    // T11 (thorough only): terminals shorter than / comparable to the trains
-    if thorough {
-        for t in short_terminal_topologies(false) {
-            if t.name == "short-dest-line-500" || t.name == "short-dest-siding-900" || t.name == "short-dest-siding-200" {
-                v.push(t);
-            }
+    // T11: terminals shorter than / comparable to the trains (quick tier: the 900 m terminal behind a siding only)
+    for t in short_terminal_topologies(false) {
+        if t.name == "short-dest-siding-900" || (thorough && (t.name == "short-dest-line-500" || t.name == "short-dest-siding-200")) {
+            v.push(t);
         }
     }
     // T6: intermediate terminal: YW(1) -> MID(2, 12 km, also a destination/origin) -> [M(3) | SD(4)] -> S2(5) -> YE(6)
